@@ -89,8 +89,27 @@ var unknownVal = ssa.Value(&ssa.Const{})
 
 type phiEnv map[*ssa.Phi]ssa.Value
 
+// phiSets: for every phi, every operand it can receive under the tag value (kept next to phiEnv, which only knows the
+// operand when it is the same on every way into the block).
+type phiSets map[*ssa.Phi][]ssa.Value
+
 // constEnvAt: under tag value v, the operand every phi of fn's blocks certainly carries when block b is entered.
 func constReachEnv(fn *ssa.Function, isTag func(ssa.Value) bool, domain []string, v string) (map[*ssa.BasicBlock]bool, map[*ssa.BasicBlock]phiEnv) {
+	r, e, _ := constReachEnvSets(fn, isTag, domain, v)
+	return r, e
+}
+
+// constReachEnvSets additionally returns, per phi, the operands of the incoming edges that are feasible under v.
+func constReachEnvSets(fn *ssa.Function, isTag func(ssa.Value) bool, domain []string, v string) (map[*ssa.BasicBlock]bool, map[*ssa.BasicBlock]phiEnv, phiSets) {
+	sets := phiSets{}
+	addSet := func(ph *ssa.Phi, x ssa.Value) {
+		for _, y := range sets[ph] {
+			if sameSSAVal(x, y) {
+				return
+			}
+		}
+		sets[ph] = append(sets[ph], x)
+	}
 	inDomain := map[string]bool{}
 	for _, d := range domain {
 		inDomain[d] = true
@@ -152,6 +171,27 @@ func constReachEnv(fn *ssa.Function, isTag func(ssa.Value) bool, domain []string
 							decided, val = true, x.Op == token.NEQ
 						}
 					}
+					// a nil test of a value the way here determines (err := φ(…) resolved to a fresh error or to nil)
+					if !decided {
+						isNil := func(y ssa.Value) bool { c, ok := y.(*ssa.Const); return ok && c.Value == nil }
+						var opnd ssa.Value
+						switch {
+						case isNil(x.Y):
+							opnd = resolve(x.X, env)
+						case isNil(x.X):
+							opnd = resolve(x.Y, env)
+						}
+						if opnd != nil {
+							switch classifyErrVal(opnd, nil) {
+							case ErrNonNil:
+								if _, isG := opnd.(*ssa.UnOp); !isG {
+									decided, val = true, x.Op == token.NEQ
+								}
+							case ErrNil:
+								decided, val = true, x.Op == token.EQL
+							}
+						}
+					}
 				}
 			}
 			if decided {
@@ -180,6 +220,7 @@ func constReachEnv(fn *ssa.Function, isTag func(ssa.Value) bool, domain []string
 				for pi, p := range succ.Preds {
 					if p == b {
 						ne[ph] = resolve(ph.Edges[pi], env)
+						addSet(ph, ph.Edges[pi])
 						break
 					}
 				}
@@ -209,7 +250,7 @@ func constReachEnv(fn *ssa.Function, isTag func(ssa.Value) bool, domain []string
 			}
 		}
 	}
-	return reached, envIn
+	return reached, envIn, sets
 }
 
 func sameSSAVal(a, b ssa.Value) bool {
